@@ -185,6 +185,9 @@ func (ev *Eval) strBuiltin(e ECall) (TV, bool) {
 (declare-fun str_diff (Str Str) Int)
 (assert (forall ((a Str) (b Str)) (! (and (= (str_eqx a b) (= a b)) (=> (and (= (slen a) (slen b)) (= (select (sbytes a) (str_diff a b)) (select (sbytes b) (str_diff a b)))) (= a b))) :pattern ((str_eqx a b)))))`)
 		return TV{T: "(str_eqx " + arg(0).T + " " + arg(1).T + ")", Ty: vtBool}, true
+	case "runeenc":
+		// UTF-8 encoding of a rune, as written by strings.Builder.WriteRune / string(rune)
+		return TV{T: ev.vc().strFromRune(arg(0).T), Ty: strT}, true
 	case "runestr":
 		ev.vc().runeConvFns()
 		return TV{T: "(runes_str " + arg(0).T + " " + arg(1).T + " " + arg(2).T + ")", Ty: strT}, true
